@@ -96,6 +96,7 @@ def cases(ctx):
             cs.append(dict(op='tconv', table='user', tkey='ints', rows=ints, form='map', a=qj(a), u=u, v=v,
                            rep='frac' if a.denominator == 3 else ('dec' if a.denominator == 2 else 'int')))
             cs.append(dict(op='tcmp', table='user', tkey='ints', rows=ints, form='map', a=qj(a), u=u, b=qj(F(47)), v=v, c='eq'))
+            cs.append(dict(op='tadd', table='user', tkey='ints', rows=ints, form='map', a=qj(a), u=u, b=qj(F(90)), v=v, sub=a < 0))
     # units defined through others (milli-x, milli-y) in a table-converted type; the text spelling of a conversion
     rows_xy = [row('x', 'y', F(9, 5), F(32))]
     for a in (F(5), F(0), F(-40), F(1, 3)):
@@ -108,6 +109,12 @@ def cases(ctx):
     for a in (F(20), F(0), F(27315, 100), F(-40)):
         for u, v in itertools.product(UN, UN):
             cs.append(dict(op='tconv', how='str', table='temp', a=qj(a), u=u, v=v, rep='frac'))
+    # the converter of a type is replaced by another one after a pair has been converted
+    for j, (r1, r2) in enumerate(((rows_xy, [row('x', 'y', F(3), F(-5))]), (rows_xy, [row('y', 'z', F(2), F(0))]),
+                                  ([row('x', 'y', F(2), F(0)), row('y', 'z', F(1, 2), F(1))], [row('z', 'y', F(4), F(4))]))):
+        for (u, v) in (('x', 'y'), ('y', 'x'), ('y', 'z')):
+            cs.append(dict(op='treplace', table='user', tkey='repl%d%s%s' % (j, u, v), rows=r1, rows2=r2, form='list',
+                           a=qj(F(5)), u=u, v=v))
     for j, (r1, r2) in enumerate(two):
         key = 'two%d' % j
         for a in (F(5), F(-3, 4), F(0), F(10, 3)):
